@@ -95,13 +95,3 @@ func (x *Exec) rangeOther(s *ast.RangeStmt, st *State, coll Val, lc *LoopContrac
 	unsupp(s.Pos(), x.fx.prog.fset, fmt.Sprintf("range over %T is not modelled", coll))
 	return nil
 }
-
-func (p *Prog) replayKnown(o checkOpts, f KnownFinding) (bool, string) {
-	return true, "replay not built yet"
-}
-func (p *Prog) replayLemmaWitness(o checkOpts, lr *LemmaResult) (bool, string) {
-	return false, "replay not built yet"
-}
-func (p *Prog) replayModel(o checkOpts, ob *Obligation) (bool, string) {
-	return false, "replay not built yet"
-}
